@@ -77,8 +77,13 @@ func (self *Fork) postProcess(ctx context.Context) error {
 		noutMap := make(MarshalerMap, len(outs))
 		for k, elem := range outs {
 			util.Print("Fork \"%s\":\n", k)
+			dir := k
+			if k == "" || k == "." || k == ".." {
+				// Not usable as the name of a directory below outs/.
+				dir = mapKeyFork(k).forkString()
+			}
 			nout, err := self.processStructOuts(pipestancePath,
-				path.Join(outsPath, k), elem)
+				path.Join(outsPath, dir), elem)
 			if err != nil {
 				errs = append(errs, err)
 			}
